@@ -34,10 +34,13 @@ class Rig:
         self.ran_cleanups = []
         self.ran_done = []
         self.in_factory = None      # threaded runs: a scheduling point inside cancel()'s exc_type(msg) call
+        self.after_factory = None   # ... and a stamp when it returns (no scheduling point between that and the stores)
 
     def _cancel_exc(self, n):
         if self.in_factory is not None:
             self.in_factory()
+            if self.after_factory is not None:
+                self.after_factory()
         return Exc(n)
 
     def apply(self, op, arg):
@@ -161,6 +164,8 @@ def threaded_case(seed, plans, mode):
         rig.c._lock = LoggedLock()
         # building the cancellation error takes time: the other threads may run while cancel() holds the state lock
         rig.in_factory = lambda: sch.point(('exc-type',))
+        effect = {}                 # thread -> tick at which its cancel() takes effect (the factory returned)
+        rig.after_factory = lambda: effect.__setitem__(sch.me().name, sch.tick())
         results = {}
 
         def worker(i, plan):
@@ -176,6 +181,10 @@ def threaded_case(seed, plans, mode):
                     # never take it (reads, refused future.set_exception, announce, registrations)
                     # take effect at invocation
                     stamp = mine[0][0] if (mine and op in LOCK_OPS | {'future-set-exception'}) else t_inv
+                    if op == 'cancel' and effect.get(sch.me().name, -1) >= t_inv:
+                        # cancel() held the lock across a scheduling point: readers that do not take the lock
+                        # (done(), a refused future.set_exception) saw the old state until the stores
+                        stamp = effect[sch.me().name]
                     outs.append((stamp, op, arg, out))
                 results[i] = outs
             return run
